@@ -1100,7 +1100,10 @@ pub(crate) fn get_data_type_attrs(input: &[Attribute]) -> Result<(DataTypeAttrs,
             }
 
             #[cfg(feature = "syn")]
-            let tokens = syn::parse2(x.tokens.clone()).map(|x: OptionalParenthesizedTokenStream|x.content())?;
+            let tokens = match x.tokens.clone().into_iter().next() {
+                Some(proc_macro2::TokenTree::Group(g)) => g.stream(),
+                _ => TokenStream::new(),
+            };
 
             #[cfg(feature = "syn2")]
             let tokens = match &x.meta {
@@ -1178,7 +1181,10 @@ pub(crate) fn get_member_attrs(input: SynDataTypeMember, bark: bool) -> Result<M
             }
 
             #[cfg(feature = "syn")]
-            let tokens = syn::parse2(x.tokens.clone()).map(|x: OptionalParenthesizedTokenStream|x.content())?;
+            let tokens = match x.tokens.clone().into_iter().next() {
+                Some(proc_macro2::TokenTree::Group(g)) => g.stream(),
+                _ => TokenStream::new(),
+            };
             
             #[cfg(feature = "syn2")]
             let tokens = match &x.meta {
